@@ -432,6 +432,6 @@ func init() {
 		Run:         runC08,
 		Exec:        execC08,
 		Coord:       coordC08,
-		CaseTimeout: 45 * time.Second,
+		CaseTimeout: 200 * time.Second,
 	})
 }
